@@ -168,20 +168,26 @@ def identifier(ctx, rep, prog):
     cmp_key = "<Identifier as std::cmp::Ord>::cmp"
     eq_key = "<Identifier as std::cmp::PartialEq>::eq"
     if prog.has_body(cmp_key) and prog.has_body(eq_key):
+        from ..models import concrete_u64_parse
         bad = 0
+        seen_inc = set()
         for a in items:
             for b in items:
                 out = {}
                 for key in (cmp_key, eq_key):
-                    it = Interp(prog, Policy())
+                    pol = Policy()
+                    pol.str_parse = concrete_u64_parse
+                    it = Interp(prog, pol)
                     try:
                         out[key] = it.call_body(key, [Ptr(Cell(mkc(*a))), Ptr(Cell(mkc(*b)))])
                     except Inconclusive as e:
-                        rep.inconc("T-IDENT (representatives): " + e.reason, e.where)
+                        if e.reason not in seen_inc:
+                            seen_inc.add(e.reason)
+                            rep.inconc("T-IDENT (representatives): " + e.reason, e.where)
                         out = None
                         break
                 if out is None:
-                    break
+                    continue
                 got, geq = ordering_to_int(out[cmp_key]), out[eq_key]
                 exp = ref(a, b)
                 if got == exp and geq == (exp == 0):
@@ -193,9 +199,6 @@ def identifier(ctx, rep, prog):
                             "cmp says %s but == says %s" % (_o(got), geq)
                         rep.fail("T-IDENT", "%s|T-IDENT|representatives: %s" % (cmp_key, "order" if got != exp else "eq and cmp disagree"),
                                  "identifiers %r and %r: %s" % (a[1], b[1], what), example="1.0.0-%s vs 1.0.0-%s" % (a[1], b[1]))
-            else:
-                continue
-            break
         rep.analysed_item("Identifier cmp / eq on %d x %d concrete class representatives" % (len(items), len(items)))
 
 
@@ -266,42 +269,97 @@ def classification(ctx, rep, prog):
         return
     for node, key, owner in maps:
         fails, pending = _classify_one(ctx, rep, prog, node.extra, key)
-        if fails and len(maps) > 1:
-            # several classification functions: one that is wrong on a class of texts matters only if such a text can
-            # reach it. Decided on words: the grammar is evaluated on short version texts and the function is run on
-            # what its node matched.
-            _reachable_misclassification(rep, prog, g, node, key, fails)
-        else:
-            for k, what, ex in fails:
-                rep.fail("T-CLASSIFY", k, what, example=ex)
+        if fails:
+            # a function that is wrong on a class of texts matters only if such a text can reach it (it may stand behind
+            # another parser that takes those texts first). Decided on words: the grammar is evaluated on version texts
+            # that carry the failing representative, and on all short ones, and the function is run on what its node
+            # matched.
+            _reachable_misclassification(rep, prog, g, node, key, fails, single=(len(maps) == 1))
         for reason, where in pending:
             rep.inconc(reason, where)
     rep.analysed_item("%d classification function(s) of the version grammar (%s) interpreted with str::parse stubbed to "
                       "Ok(n) / Err and on concrete representative texts" % (len(maps), ", ".join(k for _, k, _ in maps)))
 
 
-def _reachable_misclassification(rep, prog, g, node, key, fails):
+def _reachable_misclassification(rep, prog, g, node, key, fails, single=False):
     import itertools
     from .. import peg
+    from ..interp import StrV, is_some
+    from ..models import concrete_u64_parse
     from .c05 import build
     try:
         L, P, classes, reps, classes_cp, class_of = build(prog, g)
     except Inconclusive as e:
+        if single:
+            for k, what, ex in fails:
+                rep.fail("T-CLASSIFY", k, what, example=ex)
+            return
         rep.inconc("T-CLASSIFY: %s is wrong on some texts (%s) and the grammar has no word-level evaluation: %s" % (
             key, fails[0][1], e.reason), e.where)
         return
     memo, found = {}, {}
     alphabet = "10a-.+"
     n = 0
+    # the failing representatives in every position an identifier can stand in, then all short suffixes
+    words = []
+    for k_, what_, ex_ in fails:
+        if ex_ and ex_.startswith("1.0.0-"):
+            t = ex_[len("1.0.0-"):]
+            words += ["1.1.1-" + t, "1.1.1-a." + t, "1.1.1+" + t, "1.1.1+a." + t, "1.1.1" + t, "1.1.1a." + t, "1.1.1-" + t + ".a"]
     for ln in range(1, 6):
         for suffix in itertools.product(alphabet, repeat=ln):
-            word = "1.1.1" + "".join(suffix)
+            words.append("1.1.1" + "".join(suffix))
+    state = {"word": ""}
+
+    def hook(p_, a, b, _w):
+        # verify / verify_map predicates on the concrete text of the word
+        pol = Policy()
+        pol.str_parse = concrete_u64_parse
+        it_ = Interp(prog, pol)
+        r_ = it_.call_value(p_.extra, [Ptr(Cell(StrV(state["word"][a:b])))])
+        if p_.kind == "verify_map":
+            return is_some(r_)
+        if not isinstance(r_, bool):
+            raise Inconclusive("verify() predicate answered %r" % (r_,))
+        return r_
+    saved = peg.VERIFY_HOOK[0]
+    peg.VERIFY_HOOK[0] = hook
+    try:
+        _scan_words(rep, prog, g, classes, class_of, node, words, state, memo, found)
+    except Inconclusive as e:
+        rep.inconc("T-CLASSIFY: word-level evaluation: %s" % e.reason, e.where)
+        return
+    except KeyError as e:
+        rep.inconc("T-CLASSIFY: word-level evaluation: grammar function %s was not extracted" % e)
+        return
+    finally:
+        peg.VERIFY_HOOK[0] = saved
+    n = state.get("n", 0)
+    abstract_only = [f for f in fails if not f[2]]
+    for cls, (text, val, word) in sorted(found.items()):
+        rep.fail("T-CLASSIFY", "%s|T-CLASSIFY|text class: %s" % (key, cls),
+                 "identifier text %r (in %r) is classified as %r" % (text, word, val), example=word)
+    concrete_fails = [f for f in fails if f[2]]
+    if abstract_only and single and not found and not concrete_fails:
+        for k, what, ex in abstract_only:
+            rep.fail("T-CLASSIFY", k, what, example=ex)
+        return
+    if not found:
+        rep.notes.append("T-CLASSIFY: %s is wrong on some texts (%s) but no version text examined brings such a text to it "
+                         "(%d parseable words)" % (key, fails[0][1], n))
+        rep.ok("T-CLASSIFY")
+
+
+def _scan_words(rep, prog, g, classes, class_of, node, words, state, memo, found):
+    from .. import peg
+    n = 0
+    if True:
+        for word in words:
+            state["word"] = word
+            if any(ord(ch) not in class_of for ch in word):
+                continue
             w = [class_of[ord(ch)] for ch in word]
-            try:
-                r = peg.eval_peg_trace(g, classes, g["version"], w, 0, {id(node)})
-            except Inconclusive as e:
-                rep.inconc("T-CLASSIFY: word-level evaluation: %s" % e.reason, e.where)
-                return
+            r = peg.eval_peg_trace(g, classes, g["version"], w, 0, {id(node)})
             if r is None or r[0] != len(w):
                 continue
             n += 1
@@ -318,13 +376,7 @@ def _reachable_misclassification(rep, prog, g, node, key, fails):
                 good, val = memo[text]
                 if not good and _text_class(text) not in found:
                     found[_text_class(text)] = (text, val, word)
-    for cls, (text, val, word) in sorted(found.items()):
-        rep.fail("T-CLASSIFY", "%s|T-CLASSIFY|text class: %s" % (key, cls),
-                 "identifier text %r (in %r) is classified as %r" % (text, word, val), example=word)
-    if not found:
-        rep.notes.append("T-CLASSIFY: %s is wrong on some texts (%s) but no version text of up to 10 characters brings such a "
-                         "text to it (%d parseable words examined)" % (key, fails[0][1], n))
-        rep.ok("T-CLASSIFY")
+    state["n"] = n
 
 
 def _classify_one(ctx, rep, prog, fn, key):
